@@ -4,6 +4,8 @@ export GOFLAGS=-mod=mod GOPROXY=off GOSUMDB=off GOTOOLCHAIN=local
 cd /repo && go test -mod=mod -json -vet=off -count=1 -timeout 25m ./... > /var/tmp/suite.json 2>/var/tmp/suite.err
 # output of tests that print to stdout can garble single JSON lines: a second run is unioned in
 go test -mod=mod -json -vet=off -count=1 -timeout 25m ./... >> /var/tmp/suite.json 2>>/var/tmp/suite.err
+# the suite rewrites tracked LevelDB fixtures under event/test_dbpath: put them back
+git -C /repo checkout -- event/test_dbpath 2>/dev/null; git -C /repo clean -fdq event/test_dbpath 2>/dev/null
 python3 - <<'PY'
 import json
 base=json.load(open('/root/.vp/BASELINE.json'))
